@@ -164,9 +164,13 @@ func (k *jkey) class() string { return k.alg + "/" + k.strategy }
 
 // drawMaterial draws the algorithm and the key material of a key of one of the families.
 func drawMaterial(rt *rapid.T, label string, families []string) *jkey {
-	k := &jkey{}
-	k.fam = rapid.SampledFrom(families).Draw(rt, label+"_family")
-	k.alg = rapid.SampledFrom(algsByFamily[k.fam]).Draw(rt, label+"_alg")
+	fam := rapid.SampledFrom(families).Draw(rt, label+"_family")
+	return drawMaterialFor(rt, label, fam, rapid.SampledFrom(algsByFamily[fam]).Draw(rt, label+"_alg"))
+}
+
+// drawMaterialFor draws key material for one algorithm.
+func drawMaterialFor(rt *rapid.T, label, fam, alg string) *jkey {
+	k := &jkey{fam: fam, alg: alg}
 	switch k.fam {
 	case "HS":
 		min := map[string]int{"HS256": 32, "HS384": 48, "HS512": 64}[k.alg]
